@@ -640,6 +640,11 @@ func TestVP_C06_RequestCookies(t *testing.T) {
 				va = vpC06Arg{s: rapid.StringOfN(rapid.SampledFrom(vpC06OctetChars), 0, 12, -1).Draw(t, "voct"), octet: true}
 			} else {
 				ka, va = vpC06GenArg(t, "k", "key"), vpC06GenArg(t, "v", "value")
+				if len(model) > 0 && rapid.IntRange(0, 3).Draw(t, "rekeyHostile") == 0 {
+					// the same name again, whatever bytes it is made of: the value is replaced, no cookie is added
+					ka.s = model[rapid.IntRange(0, len(model)-1).Draw(t, "whichHostile")].k
+					ka.octet = false
+				}
 			}
 			if strings.Contains(ka.s, ";") || strings.Contains(va.s, ";") {
 				vpC06ProbeReqSemicolon()
